@@ -185,12 +185,6 @@ Definition enc_ev (e : ev) : wv :=
 Definition enc_evs (t : list ev) : wv := WL (map enc_ev t).
 Definition enc_passes (l : list (list ev)) : wv := WL (map enc_evs l).
 
-Definition one_main_last (its : list item) : bool :=
-  match rev its with
-  | IMainLoop _ :: r => no_main r
-  | _ => no_main its
-  end.
-
 (* ------------------------------------------------------------------ run *)
 Definition run (v : wv) : wv :=
   match v with
